@@ -452,10 +452,19 @@ func c07SpecialCheck(r *Run, f *xl.File, sp *c07Special, edited string, e c07Edi
 			c := &c07Case{sheet: edited, sheetN: m.sheet, e: e, tree: m.tree, formula: m.formula, how: how + ":arrayMaster", names: names}
 			c07Check(r, c, got, gerr != nil)
 		}
-		_, _, refAfter, _, found, _ := xl.VerifC07CellF(f, m.sheet, cell)
+		_, typAfter, refAfter, _, found, _ := xl.VerifC07CellF(f, m.sheet, cell)
 		want, wok := m.ref, true
 		if m.sheet == edited {
 			want, wok = c07ShiftRect(e, m.ref)
+		}
+		if found && m.kind == "shared" {
+			// repaired behaviour: shared formulas (of every sheet) are expanded into ordinary ones
+			r.Stat("special:shared-expanded-checked")
+			if typAfter != "" || refAfter != "" {
+				r.Fail("fref:shared-not-expanded", fmt.Sprintf("%s: shared formula %s!%s is still shared after the edit (t=%q ref=%q)", desc, m.sheet, c07Name(m.col, m.row), typAfter, refAfter), 0,
+					fmt.Sprintf("# %s\n# shared formula %q at %s!%s Ref %s", desc, m.formula, m.sheet, c07Name(m.col, m.row), c07RangeName(m.ref)))
+			}
+			continue
 		}
 		if !found || !wok {
 			r.Stat("special:fref-endpoint-deleted")
@@ -495,7 +504,8 @@ func c07SpecialCheck(r *Run, f *xl.File, sp *c07Special, edited string, e c07Edi
 				got = ""
 			}
 		} else {
-			c.noOp = true
+			// since the repair every cell of a shared range is an ordinary formula rewritten by
+			// adjustFormulaRef: its before/after texts go to the transcript like any other formula
 			got, gerr = f.GetCellFormula(o.sheet, cell)
 			mc, mr, mok := c07ShiftCellPos(e, o.sheet == edited, o.mcol, o.mrow)
 			if !mok {
